@@ -10,12 +10,12 @@ CHECKS = {
     design="4/C01"),
  "C02": dict(
     technique="property-based testing: proptest-generated programs (repaired to valid terminating ones, two surface renderings) run on the virtual shell vs a reference big-step interpreter; per-process probe traces and final status compared",
-    text="Exploration: random programs of the core command language incl. command-search probes; exact (probe id, $?) sequence of the main process, multiset of child-process sequences and final status must equal the reference interpreter's, under the canonical and a varied surface rendering. Bounded random search with shrinking.",
+    text="Exploration: random programs of the core command language incl. command-search probes, assignment-only commands, commands whose words expand to nothing, aliases in command position and `return` inside subshells of a function; a second driver runs the same programs through the real yash3 start-up code (re-executed harness binary) on the real OS; exact (probe id, $?) sequence of the main process, multiset of child-process sequences and final status must equal the reference interpreter's, under the canonical and a varied surface rendering. Bounded random search with shrinking.",
     note="Trusted: the reference interpreter harness/src/model/interp.rs and its renderer. Only uses of break/continue/return that POSIX defines are generated.",
     design="4/C02"),
  "C05": dict(
     technique="property-based testing: exhaustive (fixed trees x all patterns of <=2 components) + proptest (tree, word) pairs on the virtual file system against an independent glob model built on the reference pattern matcher",
-    text="Exploration: 4-6 fixed trees x every pattern of <=2 components over a 26-54 component alphabet, plus 150k (quick) / 5M (thorough) random (tree, word) pairs with symlinks, unsearchable directories, metacharacter names, quoted segments and parts from variables; the probe's argument list must equal the model's sorted list of existing matching paths (or the unchanged word). Bounded.",
+    text="Exploration: 4-6 fixed trees x every pattern of <=2 components over a 26-54 component alphabet, plus 150k (quick) / 5M (thorough) random (tree, word) pairs with symlinks, unsearchable directories, metacharacter and backslash names, quoted segments, parts from variables, and tilde-expansion prefixes with special characters in HOME; the probe's argument list must equal the model's sorted list of existing matching paths (or the unchanged word). Bounded.",
     note="Trusted: harness/src/model/glob.rs + model/fnmatch.rs. Classes the simulated OS cannot express (symlink in the middle of a path, unreadable directories) are skipped and counted; one simulator deviation is an open known finding (vfs-dot-in-unsearchable-dir).",
     design="4/C05"),
  "C06": dict(
@@ -34,12 +34,12 @@ CHECKS = {
     note="Trusted: the snapshot probe (probes.rs) and process inspection (vsys.rs). `$?`, `$!`, the job list and the variable assigned from $( ) are excluded by construction; SIGCHLD handling installed by the shell itself, and the job-control stop signals an interactive shell's subshells keep ignoring, are not counted as differences.",
     design="4/C08"),
  "C09": dict(
-    technique="property-based testing + fault enumeration: exhaustive single redirections (17 command kinds x 73 operator/operand pairs x 7 targets x noclobber), proptest redirection lists, and a descriptor-limit sweep (RLIMIT_NOFILE 3..16, two ways) against a reference descriptor-table/file model; invariant-only oracle under injected allocation failures",
-    text="Exploration: 17k exhaustive single-redirection cases, 300k (quick) / 10M (thorough) random lists of 1-3 redirections on every command kind with initial exec-opened descriptors, and 4k base cases re-run under every descriptor limit 3..16 so that allocation fails at every position (saving copy, open, here-document file, pipe). Predicted: table seen by the command, table afterwards (identical to before unless exec succeeded), file contents byte for byte, status, diagnostics; always: descriptors >= 10 are close-on-exec, nothing leaks.",
+    technique="property-based testing + fault enumeration: exhaustive single redirections (18 command kinds incl. a sourced script x 73 operator/operand pairs x 7 targets x noclobber), proptest redirection lists, and a descriptor-limit sweep (RLIMIT_NOFILE 3..16, two ways) against a reference descriptor-table/file model; invariant-only oracle under injected allocation failures",
+    text="Exploration: 18k exhaustive single-redirection cases, 300k (quick) / 10M (thorough) random lists of 1-3 redirections on every command kind with initial exec-opened descriptors, and 4k base cases re-run under every descriptor limit 3..16 so that allocation fails at every position (saving copy, open, here-document file, pipe). Predicted: table seen by the command, table afterwards (identical to before unless exec succeeded), file contents byte for byte, status, diagnostics; always: descriptors >= 10 are close-on-exec, nothing leaks.",
     note="Trusted: harness/src/model/fdtable.rs and the snapshot probe. Under the limit sweep only the invariants are checked (which step fails is not predicted). Symbolic links and non-regular noclobber targets are not generated (simulator limitations).",
     design="4/C09", level="fault_enumeration"),
  "C10": dict(
-    technique="property-based testing: proptest programs with planted failures of every shell-error category and errexit toggles, run on the virtual shell vs a reference interpreter with the errexit rule and the shell-error table; EXIT-trap probe counted",
+    technique="property-based testing: proptest programs with planted failures of every shell-error category and errexit toggles, run on the virtual shell vs a reference interpreter with the errexit rule and the shell-error table; EXIT-trap probe counted; the same programs also through the real yash3 start-up code",
     text="Exploration: the C02 generator plus failing commands of each documented category, errexit on/off/toggled, EXIT trap; trace up to the abort point, nothing after it, status (exact where documented, else non-zero), EXIT probe exactly once and last. Bounded random search with shrinking.",
     note="Trusted: reference interpreter (errexit = option on and no dynamically enclosing condition context; shell-error table from docs/src/termination.md). Syntax-error categories are covered by C18, not here.",
     design="4/C10"),
